@@ -1,0 +1,139 @@
+//go:build verif
+
+package file
+
+import (
+	"sync"
+
+	"github.com/ozontech/file.d/metric"
+	"github.com/ozontech/file.d/pipeline"
+	"github.com/prometheus/client_golang/prometheus"
+	"go.uber.org/zap"
+)
+
+// Verification-only exports for property C07 (build tag `verif`): the real offsetDB
+// save / load / parse and the real jobProvider.commit on harness-built job tables.
+// Nothing here is compiled into normal builds.
+
+type VerifC07Stream struct {
+	Name   string
+	Offset int64
+}
+
+type VerifC07Job struct {
+	Filename  string
+	Inode     uint64
+	SourceID  uint64
+	Timestamp int64
+	Streams   []VerifC07Stream
+}
+
+func verifC07Jobs(jobs []VerifC07Job) map[pipeline.SourceID]*Job {
+	m := make(map[pipeline.SourceID]*Job, len(jobs))
+	for _, j := range jobs {
+		job := &Job{
+			filename: j.Filename,
+			inode:    inodeID(j.Inode),
+			sourceID: pipeline.SourceID(j.SourceID),
+			mu:       &sync.Mutex{},
+		}
+		job.eofReadInfo.setUnixNanoTimestamp(j.Timestamp)
+		for _, s := range j.Streams {
+			job.offsets.Set(pipeline.StreamName(s.Name), s.Offset)
+		}
+		m[job.sourceID] = job
+	}
+	return m
+}
+
+// VerifC07Save runs the real offsetDB.save on the given jobs and returns the source ids in the
+// order the snapshot (map iteration) visited them.
+func VerifC07Save(cur, tmp string, jobs []VerifC07Job) []uint64 {
+	db := newOffsetDB(cur, tmp)
+	db.save(verifC07Jobs(jobs), &sync.RWMutex{})
+	order := make([]uint64, 0, len(db.jobsSnapshot))
+	for _, j := range db.jobsSnapshot {
+		order = append(order, uint64(j.sourceID))
+	}
+	return order
+}
+
+func verifC07FromLoaded(offs fpOffsets) []VerifC07Job {
+	res := make([]VerifC07Job, 0, len(offs))
+	for id, io := range offs {
+		j := VerifC07Job{Filename: io.filename, SourceID: uint64(io.sourceID), Timestamp: io.lastReadTimestamp}
+		_ = id
+		for name, off := range io.streams {
+			j.Streams = append(j.Streams, VerifC07Stream{Name: string(name), Offset: off})
+		}
+		res = append(res, j)
+	}
+	return res
+}
+
+// VerifC07Load is what jobProvider.start does: a fresh offsetDB.load() of the file at cur.
+func VerifC07Load(cur string) ([]VerifC07Job, error) {
+	offs, err := newOffsetDB(cur, "").load()
+	if err != nil {
+		return nil, err
+	}
+	return verifC07FromLoaded(offs), nil
+}
+
+// VerifC07Parse runs the real offsetDB.parse on content.
+func VerifC07Parse(content string) ([]VerifC07Job, error) {
+	offs, err := newOffsetDB("", "").parse(content)
+	if err != nil {
+		return nil, err
+	}
+	return verifC07FromLoaded(offs), nil
+}
+
+// VerifC07Provider wraps a real jobProvider whose jobs are harness-built, so that the real
+// commit / truncateJob / offsetDB.save run against each other.
+type VerifC07Provider struct {
+	jp *jobProvider
+}
+
+func NewVerifC07Provider(cur, tmp string, syncMode bool, jobs []VerifC07Job) *VerifC07Provider {
+	ctl := metric.NewCtl("verif_c07", prometheus.NewRegistry(), 0, 0)
+	metrics := newMetricCollection(
+		ctl.RegisterCounter("verif_c07_1", "h"),
+		ctl.RegisterCounter("verif_c07_2", "h"),
+		ctl.RegisterGauge("verif_c07_3", "h"),
+		ctl.RegisterGauge("verif_c07_4", "h"),
+	)
+	cfg := &Config{OffsetsFile: cur, OffsetsFileTmp: tmp}
+	if syncMode {
+		cfg.PersistenceMode_ = persistenceModeSync
+	}
+	jp := NewJobProvider(cfg, metrics, zap.NewNop().Sugar())
+	jp.jobs = verifC07Jobs(jobs)
+	return &VerifC07Provider{jp: jp}
+}
+
+func (p *VerifC07Provider) Commit(source uint64, stream string, offset int64, seq uint64) {
+	p.jp.commit(pipeline.VerifNewEventC07(pipeline.SourceID(source), stream, offset, seq))
+}
+
+func (p *VerifC07Provider) Truncate(source uint64) {
+	p.jp.jobsMu.RLock()
+	job := p.jp.jobs[pipeline.SourceID(source)]
+	p.jp.jobsMu.RUnlock()
+	if job != nil {
+		p.jp.truncateJob(job)
+	}
+}
+
+func (p *VerifC07Provider) Save() {
+	p.jp.offsetDB.save(p.jp.jobs, p.jp.jobsMu)
+}
+
+// SnapshotOrder returns the source ids in the order the last save visited the jobs.
+func (p *VerifC07Provider) SnapshotOrder() []uint64 {
+	order := make([]uint64, 0, len(p.jp.offsetDB.jobsSnapshot))
+	for _, j := range p.jp.offsetDB.jobsSnapshot {
+		order = append(order, uint64(j.sourceID))
+	}
+	return order
+}
